@@ -46,11 +46,23 @@ Frags == {"{{ x }", "{{ x ", "{{ x", "{{", "{", "{% if x %", "{% if x ", "{% if"
 TruncCases == {[fam |-> "trunc", frag |-> f] : f \in Frags}
 TruncLens == {0, 4000, 4085, 4090, 4096, 4100, 20000}
 \* ---- context value shapes x skeletons -------------------------------------------------------------
+\* every ASCII punctuation character, space, NUL, DEL and a byte that is not UTF-8, as a one-byte string; some two-byte ones
+\* (what a pattern, a format, a separator, a character list or a name could be)
+CharCodes == {0, 32, 127, 255} \cup 33..47 \cup 58..64 \cup 91..96 \cup 123..126
+CharShapes == {"ch:" \o ToString(c) : c \in CharCodes}
+StrShapes == {"s:47,47", "s:47,105", "s:47,47,105", "s:47,40,47", "s:47,91,47", "s:47,42,47", "s:92,92", "s:37,37", "s:37,100", "s:37,33", "s:37,42,100", "s:37,91,49,93,100", "s:44,32",
+              "s:44,59", "s:97,44,98,255,99,32,100", "s:255,254", "s:40,41", "s:91,93", "s:123,125", "s:46,46", "s:45,45", "s:36,49", "s:92,49", "s:89,45,109", "s:239,187,191"}
+\* integers at and next to the powers of two where a representation changes
+IntEdgeShapes == {"i:2147483647", "i:2147483648", "i:-2147483648", "i:-2147483649", "i:4294967295", "i:4294967296", "i:9007199254740992", "i:9007199254740993",
+                  "i:-9007199254740993", "i:4611686018427387903", "i:4611686018427387904", "i:-4611686018427387904", "i:-4611686018427387905",
+                  "i:9223372036854775806", "i:-9223372036854775807", "i:1000000", "i:-1000000", "i:256", "i:65536"}
 Shapes == {"nil", "true", "int0", "int5", "intneg", "float", "strempty", "str", "strnum", "listempty", "listmixed", "strs", "ints", "arr3",
            "mapany", "mss", "mis", "msl", "mapempty", "struct", "ptrstruct", "nilptrstruct", "embedded", "methods", "ptrptr", "nilslice",
            "nilmap", "func", "chan", "time", "bytes", "err", "iface", "uint8", "int64", "float32", "nested", "mixedrecv",
            "biglist", "bigints", "maxint", "minint", "strregex", "strbracket", "strbackslash", "struni", "niltime", "nilstringer", "nilerr",
-           "mapiface", "uintmap", "listoflists", "float0", "floatbig", "nan"}
+           "mapiface", "uintmap", "listoflists", "float0", "floatbig", "nan",
+           \* values that contain themselves; very long values
+           "cyclist", "cycmap", "cycptr", "cycmutual", "strlong", "listlong"} \cup CharShapes \cup StrShapes \cup IntEdgeShapes
 V == Var("v")
 F0(f) == Filt(f, V, <<>>)
 Skeletons ==
@@ -85,8 +97,8 @@ Skeletons ==
     attrseq |-> <<PrintS(Attr(V, "nosuch")), PrintS(Attr(V, "X")), PrintS(Attr(V, "Name")), PrintS(Attr(V, "nosuch")), PrintS(Attr(V, "Y"))>>,
     hash |-> <<Set("h", Hash(<<LS(<<107>>)>>, <<V>>)), PrintS(Attr(Attr(Var("h"), "k"), "a"))>>, callv |-> <<PrintS(MCall("v", "a", <<>>))>> ]
 \* a loop over range(1, 2^40) is a finite but enormous computation the template itself asks for: not a hang of the engine
-HugeInts == {"int64", "maxint", "minint", "floatbig"}
-ShapeCases == {[fam |-> "shape", sk |-> sk, sh |-> sh] : sk \in DOMAIN Skeletons, sh \in Shapes} \ {[fam |-> "shape", sk |-> "range", sh |-> sh] : sh \in HugeInts}
+HugeInts == {"int64", "maxint", "minint", "floatbig", "listlong", "strlong"} \cup IntEdgeShapes
+ShapeCasesOf(sk) == {[fam |-> "shape", sk |-> sk, sh |-> sh] : sh \in (IF sk = "range" THEN Shapes \ HugeInts ELSE Shapes)}
 
 \* ---- every built-in filter, function and test with the value as subject and in every argument position -------
 FilterNames == {"default", "escape", "e", "upper", "lower", "trim", "raw", "length", "count", "join", "split", "date", "url_encode", "capitalize",
@@ -97,8 +109,10 @@ TestNames == {"defined", "empty", "null", "none", "even", "odd", "iterable", "sa
               "starts_with", "ends_with", "matches", "in"}
 sAB == LS(<<97, 44, 98>>)          \* 'a,b'
 L123 == Arr(<<LI(1), LI(2), LI(3)>>)
-FilterForms == {"f0", "f1", "f1s", "f1l", "f2", "f2s", "f2l", "f3s"}
-FunctionForms == {"g0", "g1", "g2", "g2a", "g2n", "g3", "g3l"}
+FilterForms == {"f0", "f1", "f1s", "f1l", "f2", "f2s", "f2l", "f3s", "f1n", "f2n", "f1v", "f1d"}
+FunctionForms == {"g0", "g1", "g2", "g2a", "g2n", "g3", "g3l", "g2z", "g2m", "g2h", "g2r", "g2q"}
+sPctV == LS(<<37, 118>>)
+sVerbs == LS(<<37, 100, 37, 115, 37, 53, 46, 50, 102, 37, 120, 37, 99, 37, 113, 37, 85, 37, 101, 37, 116, 37, 112, 37, 84, 37, 42, 100, 37, 91, 50, 93, 118>>)   \* %d%s%5.2f%x%c%q%U%e%t%p%T%*d%[2]v
 TestForms == {"t0", "t1", "t1s", "t1l"}
 GenBody(form, n) ==
     CASE form = "f0"  -> <<PrintS(Filt(n, V, <<>>))>>
@@ -109,11 +123,21 @@ GenBody(form, n) ==
       [] form = "f2s" -> <<PrintS(Filt(n, sAB, <<LI(1), V>>))>>
       [] form = "f2l" -> <<PrintS(Filt(n, L123, <<LI(1), V>>))>>
       [] form = "f3s" -> <<PrintS(Filt(n, sAB, <<LS(<<97>>), V, V>>))>>
+      [] form = "f1n" -> <<PrintS(Filt(n, LI(5), <<V>>))>>
+      [] form = "f2n" -> <<PrintS(Filt(n, LI(5), <<LI(1), V>>))>>
+      [] form = "f1v" -> <<PrintS(Filt(n, sPctV, <<V>>))>>
+      [] form = "f1d" -> <<PrintS(Filt(n, sVerbs, <<V, V>>))>>
       [] form = "g0"  -> <<PrintS(Call(n, <<>>))>>
       [] form = "g1"  -> <<PrintS(Call(n, <<V>>))>>
       [] form = "g2"  -> <<PrintS(Call(n, <<V, V>>))>>
       [] form = "g2a" -> <<PrintS(Call(n, <<LI(1), V>>))>>
       [] form = "g2n" -> <<PrintS(Call(n, <<Un("-", V), V>>))>>
+      [] form = "g2z" -> <<PrintS(Call(n, <<LI(0), V>>))>>
+      [] form = "g2m" -> <<PrintS(Call(n, <<Un("-", LI(1)), V>>))>>
+      [] form = "g2h" -> <<PrintS(Call(n, <<Un("-", V), Bin("-", V, LI(1))>>))>>
+      \* two neighbouring values: a short range wherever it lies
+      [] form = "g2r" -> <<PrintS(Filt("length", Call(n, <<Bin("-", V, LI(1)), V>>), <<>>))>>
+      [] form = "g2q" -> <<PrintS(Filt("length", Call(n, <<V, Bin("+", V, LI(1))>>), <<>>))>>
       [] form = "g3"  -> <<PrintS(Call(n, <<LI(1), LI(5), V>>))>>
       [] form = "g3l" -> <<PrintS(Call(n, <<L123, V>>))>>
       [] form = "t0"  -> <<PrintS(Cond(Test(V, n, <<>>, FALSE), LI(1), LI(2)))>>
@@ -121,10 +145,16 @@ GenBody(form, n) ==
       [] form = "t1s" -> <<PrintS(Cond(Test(sAB, n, <<V>>, FALSE), LI(1), LI(2)))>>
       [] form = "t1l" -> <<PrintS(Cond(Test(L123, n, <<V>>, TRUE), LI(1), LI(2)))>>
 \* range over a span of 2^63 values is the template's own request (see above); so is a cycle / merge of such a range
-HugeLoop(c) == c.n = "range" /\ c.sh \in HugeInts
-GenCases == {c \in ({[fam |-> "gen", form |-> fo, n |-> n, sh |-> sh] : fo \in FilterForms, n \in FilterNames, sh \in Shapes}
-                    \cup {[fam |-> "gen", form |-> fo, n |-> n, sh |-> sh] : fo \in FunctionForms, n \in FunctionNames, sh \in Shapes}
-                    \cup {[fam |-> "gen", form |-> fo, n |-> n, sh |-> sh] : fo \in TestForms, n \in TestNames, sh \in Shapes}) : ~HugeLoop(c)}
+\* (V - 1 below the smallest and V + 1 above the largest integer are not neighbours any more)
+HugeLoop(c) == \/ c.n = "range" /\ c.sh \in HugeInts /\ c.form \notin {"g2r", "g2q"}
+               \* (... and next to them v - 1 and v + 1 are computed in floating point, which has no room for the last digits)
+               \/ c.n = "range" /\ c.form \in {"g2r", "g2q"}
+                  /\ c.sh \in {"minint", "maxint", "floatbig", "listlong", "strlong", "i:9223372036854775806", "i:-9223372036854775807"}
+               \* (a 600 KB regular expression matched against 600 KB of text is a finite but enormous computation, too)
+               \/ c.n = "matches" /\ c.sh = "strlong"
+\* (an operator of the form, not one big constant set: TLC builds constant sets eagerly, on one thread, and unites them quadratically)
+NamesOfForm(fo) == IF fo \in FilterForms THEN FilterNames ELSE IF fo \in FunctionForms THEN FunctionNames ELSE TestNames
+GenCasesOf(fo) == {c \in {[fam |-> "gen", form |-> fo, n |-> n, sh |-> sh] : n \in NamesOfForm(fo), sh \in Shapes} : ~HugeLoop(c)}
 
 \* ---- identifiers whose lower case has another encoded length, keywords and odd names in every name position ----
 Idents == [ stroke |-> <<570, 570, 570, 570>>, doti |-> <<304, 304, 304>>, kelvin |-> <<8490, 8490>>, sharp |-> <<7838, 97>>, acute |-> <<233, 233>>,
@@ -149,6 +179,29 @@ IdentForms == [ forv |-> "{% for %I in x %}{{ %I }}{% endfor %}", forkv |-> "{% 
                 fromi2 |-> "{% from 't1' import %I %}{{ 1 }}", fromi3 |-> "{% from 't1' import m, %I %}", impcall |-> "{% import 't1' as L %}{{ L.%I() }}",
                 selfcall |-> "{{ _self.%I() }}", blockfn |-> "{{ block('%I') }}", incsbx |-> "{% include '%I' sandboxed %}" ]
 IdentCases == {[fam |-> "ident", f |-> f, id |-> id] : f \in DOMAIN IdentForms, id \in DOMAIN Idents}
+
+\* ---- sources that are deep or wide: n-fold nesting of every bracketing construct, n distinct names ------------------
+\* %I / %J: the opening / closing text repeated n times; %N: the piece repeated n times with a running number
+BigForms == [ minus |-> [s |-> "{{ %I1 }}", a |-> "-", b |-> ""], nots |-> [s |-> "{{ %Ix }}", a |-> "not ", b |-> ""], parens |-> [s |-> "{{ %I1%J }}", a |-> "(", b |-> ")"],
+              bracks |-> [s |-> "{{ %I1%J|length }}", a |-> "[", b |-> "]"], hashes |-> [s |-> "{{ %I1%J|length }}", a |-> "{'a':", b |-> "}"],
+              ifs |-> [s |-> "%Ix%J", a |-> "{% if 1 %}", b |-> "{% endif %}"], fors |-> [s |-> "%Ix%J", a |-> "{% for i in [1] %}", b |-> "{% endfor %}"],
+              applies |-> [s |-> "%Ix%J", a |-> "{% apply upper %}", b |-> "{% endapply %}"], spaces |-> [s |-> "%Ix%J", a |-> "{% spaceless %}", b |-> "{% endspaceless %}"],
+              filters |-> [s |-> "{{ x%I }}", a |-> "|upper", b |-> ""], plus |-> [s |-> "{{ 1%I }}", a |-> "+1", b |-> ""], cats |-> [s |-> "{{ 'a'%I }}", a |-> "~'a'", b |-> ""],
+              attrs |-> [s |-> "{{ x%I }}", a |-> ".a", b |-> ""], idx |-> [s |-> "{{ x%I }}", a |-> "[0]", b |-> ""], terns |-> [s |-> "{{ %I1 }}", a |-> "1?1:", b |-> ""],
+              calls |-> [s |-> "{{ %I1%J }}", a |-> "max(1,", b |-> ")"], ands |-> [s |-> "{{ 1%I }}", a |-> " and 1", b |-> ""], pows |-> [s |-> "{{ 1%I }}", a |-> "**1", b |-> ""],
+              args |-> [s |-> "{{ max(1%I) }}", a |-> ",1", b |-> ""], elems |-> [s |-> "{{ [1%I]|length }}", a |-> ",1", b |-> ""], elifs |-> [s |-> "{% if 0 %}a%I{% endif %}", a |-> "{% elseif 0 %}b", b |-> ""],
+              opens |-> [s |-> "%I", a |-> "{{", b |-> ""], opensb |-> [s |-> "%I", a |-> "{% if x %}", b |-> ""], closes |-> [s |-> "a%I", a |-> "{% endif %}", b |-> ""],
+              digits |-> [s |-> "{{ 1%I }}", a |-> "7", b |-> ""], dots |-> [s |-> "{{ 1.%I }}", a |-> "7", b |-> ""], longid |-> [s |-> "{{ a%I }}", a |-> "b", b |-> ""],
+              \* two neighbouring numbers at the end of the integer range, written out
+              rangelim |-> [s |-> "{{ range(9223372036854775806, 9223372036854775807)|length }}%I", a |-> "", b |-> ""],
+              rangeneg |-> [s |-> "{{ range(-9223372036854775807, -9223372036854775806)|length }}%I", a |-> "", b |-> ""],
+              rangestep |-> [s |-> "{{ range(9223372036854775800, 9223372036854775807, 3)|length }}{{ range(1, 2, 9223372036854775807)|length }}%I", a |-> "", b |-> ""],
+              numfmtlim |-> [s |-> "{{ 5|number_format(9223372036854775807) }}{{ 5.5|round(9223372036854775807) }}%I", a |-> "", b |-> ""],
+              longstr |-> [s |-> "{{ 'a%I' }}", a |-> "b", b |-> ""], bslashes |-> [s |-> "{{ '%I' }}", a |-> "\\\\", b |-> ""], cmts |-> [s |-> "a%Ib", a |-> "{# c #}", b |-> ""] ]
+SeqForms == [ ids |-> "{{ a%N }}", strs |-> "{{ 'a%N' }}", sets |-> "{% set a%N = %N %}", blocks |-> "{% block b%N %}x{% endblock %}", macros |-> "{% macro m%N(a) %}x{% endmacro %}",
+              attrs |-> "{{ x.a%N }}", filts |-> "{{ x|f%N }}", nums |-> "{{ %N.%N }}", incs |-> "{% include 't%N' ignore missing %}", imps |-> "{% import 't1' as L%N %}" ]
+BigNs == {1000, 50000, 1000000}
+BigCases == {[fam |-> "big", f |-> f, n |-> n, seq |-> FALSE] : f \in DOMAIN BigForms, n \in BigNs} \cup {[fam |-> "big", f |-> f, n |-> n, seq |-> TRUE] : f \in DOMAIN SeqForms, n \in {1000, 100000}}
 
 \* ---- corruptions of compiled-template encodings -----------------------------------------------------
 ValidRecs == { [name |-> <<116>>, source |-> <<97, 123, 123, 32, 120, 32, 125, 125>>, lm |-> <<1, 0, 0, 0, 0, 0, 0, 0>>, ct |-> <<2, 0, 0, 0, 0, 0, 0, 0>>, ast |-> <<>>],
@@ -191,6 +244,12 @@ CaseOf(c) ==
            [prop |-> "C05", key |-> ToJson(c), tags |-> {"fam:ident", "f:" \o c.f, "id:" \o c.id}, entry |-> "main", ctx |-> ("x" :> VL(<<VI(1), VI(2)>>)),
             runs |-> {[label |-> "ident", tp |-> ("main" :> <<[subst |-> IdentForms[c.f], with |-> Idents[c.id]]>>) @@ ("t1" :> Source(Lib, LMin)),
                        xcalls |-> [id \in {} |-> 0], probe |-> TRUE]}, expect |-> AnyExpect]
+      [] c.fam = "big" ->
+           [prop |-> "C05", key |-> ToJson(c), tags |-> {"fam:big", "f:" \o c.f, "n:" \o ToString(c.n)} \cup (IF c.seq THEN {"seq"} ELSE {}), entry |-> "main", ctx |-> ("x" :> VL(<<VI(1), VI(2)>>)),
+            runs |-> {[label |-> "big", tp |-> ("main" :> <<IF c.seq THEN [subst |-> SeqForms[c.f], with |-> <<>>, seq |-> c.n]
+                                                             ELSE [subst |-> BigForms[c.f].s, witha |-> BigForms[c.f].a, withb |-> BigForms[c.f].b, rep |-> c.n]>>)
+                                               @@ ("t1" :> Source(Lib, LMin)),
+                       xcalls |-> [id \in {} |-> 0], probe |-> TRUE]}, expect |-> AnyExpect]
       [] c.fam = "dec" ->
            [prop |-> "C05", key |-> ToJson(c), tags |-> {"fam:dec", "kind:" \o c.kind}, entry |-> "main", ctx |-> EmptyFn,
             runs |-> {[label |-> "dec", tp |-> ("main" :> <<>>), xcalls |-> [id \in {} |-> 0], probe |-> TRUE, decode |-> c.bytes]}, expect |-> AnyExpect]
@@ -198,14 +257,16 @@ CaseOf(c) ==
 Fams == {"tok", "shape", "dec"}
 \* partitions (expanded in parallel by TLC's workers; also keeps every set below TLC's size limit)
 Init == cs \in {[part |-> "tok", o |-> o, c |-> c, tl |-> tl] : o \in Opens, c \in Closes, tl \in Tails}
-             \cup {[part |-> "shape", o |-> "", c |-> "", tl |-> ""], [part |-> "dec", o |-> "", c |-> "", tl |-> ""],
-                   [part |-> "trunc", o |-> "", c |-> "", tl |-> ""], [part |-> "ident", o |-> "", c |-> "", tl |-> ""]}
+             \cup {[part |-> "shape", o |-> sk, c |-> "", tl |-> ""] : sk \in DOMAIN Skeletons}
+             \cup {[part |-> "dec", o |-> "", c |-> "", tl |-> ""],
+                   [part |-> "trunc", o |-> "", c |-> "", tl |-> ""], [part |-> "ident", o |-> "", c |-> "", tl |-> ""], [part |-> "big", o |-> "", c |-> "", tl |-> ""]}
              \cup {[part |-> "gen", o |-> fo, c |-> "", tl |-> ""] : fo \in FilterForms \cup FunctionForms \cup TestForms}
 Next == "part" \in DOMAIN cs /\
         cs' \in (CASE cs.part = "tok" -> {c \in TokCasesOf(cs.o, cs.c, cs.tl) : TokRelevant(c)}
-                   [] cs.part = "shape" -> ShapeCases
-                   [] cs.part = "gen" -> {c \in GenCases : c.form = cs.o}
+                   [] cs.part = "shape" -> ShapeCasesOf(cs.o)
+                   [] cs.part = "gen" -> GenCasesOf(cs.o)
                    [] cs.part = "ident" -> IdentCases
+                   [] cs.part = "big" -> BigCases
                    [] cs.part = "trunc" -> TruncCases
                    [] cs.part = "dec" -> DecCases)
 Spec == Init /\ [][Next]_cs
